@@ -58,6 +58,12 @@
  *     texts which tell the classes apart ('7B' / '42' / 'AB' ...), see init_class_pats().  Their violation keys
  *     name the family of the pattern, the details the pattern itself.
  *
+ *   - Seed C17 round 6 (the subset construction of ure.c merged different NFA state sets, '10?00' / 'ab?bb' / '(a|ab)b' found
+ *     nothing): the pattern alphabet had a handful of hand written regular expressions.  The phase "enumerated regular
+ *     expressions" runs ALL expressions of a small grammar (letters, ? * + |, grouping) up to a source length against pages
+ *     which hold every short word alone, judged by a position set matcher (g_match()), see the comment above e_gen().
+ *     Their violation keys name the set of operators the expression uses, the details the expression itself.
+ *
  * Violation keys name the symptom and the input class (never the concrete
  * population): "<direction>: call never ends [<where the start lies>]",
  * "<direction>: ... never visits <which page>", "... returned twice ...",
@@ -117,7 +123,14 @@ static char cls_txt[NCLS][24] = {
 };
 static const char metas[] = "!\"#$%&()*+,-./:;=?@[\\]^_{|}~";
 #define NMETA ((int) sizeof metas - 1)
-#define NTEXT (T_META0 + NMETA)
+/* texts of the phase "enumerated regular expressions" (seed C17 round 6), see init_enum_texts(): every word of 1..4 letters
+ * over {a,b,c} alone on an otherwise blank page (120 pages), de Bruijn sequences which hold every 3 letter word over {a,b,c}
+ * resp. every word of up to 5 letters over two of the letters, and a blank page */
+#define T_ENUM0 (T_META0 + NMETA)
+#define NENT 126
+#define NENPOP (NENT / 6)       /* populations of 6 pages */
+static char enum_txt[NENT][40];
+#define NTEXT (T_ENUM0 + NENT)
 
 static const char *text_name(int t)
 {
@@ -133,6 +146,7 @@ static const char *text_name(int t)
                 return cb[t - T_CLS0];
         }
         if (t < T_META0) return n[t];
+        if (t >= T_ENUM0) return enum_txt[t - T_ENUM0][0] ? enum_txt[t - T_ENUM0] : "blank, no HELLO WORLD";
         snprintf(b[t - T_META0], 8, "Z%cP", metas[t - T_META0]);
         return b[t - T_META0];
 }
@@ -172,13 +186,14 @@ static void build_text(int t, uint8_t raw[26][40])
         case T_BLANK:     break;
         default:
                 if (t >= T_CLS0 && t < T_META0) { tx(raw, 2, 4, "           "); tx(raw, 5, 3, cls_txt[t - T_CLS0]); }
-                if (t >= T_META0 && t < NTEXT) { char b[4] = { 'Z', metas[t - T_META0], 'P', 0 }; tx(raw, 5, 3, b); }
+                if (t >= T_ENUM0 && t < NTEXT) { tx(raw, 2, 4, "           "); tx(raw, 5, 3, enum_txt[t - T_ENUM0]); }
+                if (t >= T_META0 && t < T_ENUM0) { char b[4] = { 'Z', metas[t - T_META0], 'P', 0 }; tx(raw, 5, 3, b); }
                 break;
         }
 }
 
 /* patterns */
-typedef struct { const char *name, *src; int regexp, casefold; const char *fam; } pat_t;
+typedef struct { const char *name, *src; int regexp, casefold; const char *fam; int grp; /* judged by the position set matcher g_match() */ } pat_t;
 #define P_ZAP 0
 #define MAXPAT 320
 static pat_t pats[MAXPAT] = {
@@ -305,6 +320,208 @@ static void init_class_pats(void)
         add_cls(FL, 0, "\\p4k"); add_cls(FL, 0, "B\\p6"); add_cls(FL, 0, "[0-9]\\p2"); add_cls(FL, 0, "\\p4[A-Z]"); add_cls(FL, 0, "[7\\p6]\\p8");
         add_cls(FL, 0, "[0-9]\\p2\\p8"); add_cls(FL, 0, "\\p2[0-9]\\p2"); add_cls(FL, 0, ".\\p4\\p2");
 }
+
+/* ---- enumerated regular expressions (seed C17 round 6) -----------------------------------------------------------
+ * Seed C17 round 6 (_ure_add_state() compared only the first half of two NFA state sets: the subset construction merged
+ * DFA states for expressions in which an optional or alternative element is followed by the same symbol again, '10?00',
+ * 'ab?bb', 'b?ba*a', '(a|ab)b' found nothing) showed that the pattern alphabet held a handful of hand written regular
+ * expressions only.  This family is enumerated, not sampled: ALL source strings of at most E_LEN3 characters over the tokens
+ * a b c ? * + | ( ) and all of exactly E_LEN2 (thorough: E_LEN2 and E_LEN2 + 1) characters over a b ? * + | ( ) which
+ * the grammar
+ *      alt := seq { '|' seq }      seq := item { item }      item := letter [?*+] | '(' alt2 ')' [?*+] | '(' seq2 ')' (?|*|+)
+ * derives (alt2: at least one '|', seq2: at least two items; i.e. no doubled operator and no parentheses without a function),
+ * except the expressions which match the empty string (where an empty occurrence lies and what it highlights is not stated
+ * anywhere).  Every expression is searched on NENPOP populations of 6 pages which together hold the NENT texts of
+ * init_enum_texts(): every word of 1..4 letters alone on a page, so that one missing or one additional word of the language
+ * changes the set of pages returned.  The oracle is g_match() below, a position set matcher written for this family. */
+#define EL 8
+#define E_LEN3 5
+#define E_LEN2 6
+typedef struct { char (*s)[EL]; int n, cap; } elist;
+enum { E_ITEM, E_SEQ, E_SEQ2, E_ALT, E_ALT2, E_NT };      /* SEQ2: at least two items; ALT2: at least one '|' at the top level */
+static elist e_memo[E_NT][EL]; static char e_done[E_NT][EL];
+static int e_nletters;
+static void e_add(elist *l, const char *a, const char *b, const char *c)
+{
+        if (l->n == l->cap) { l->cap = l->cap ? 2 * l->cap : 64; l->s = realloc(l->s, (size_t) l->cap * EL); if (!l->s) _exit(42); }
+        snprintf(l->s[l->n++], EL, "%s%s%s", a, b, c);
+}
+static const elist *e_gen(int nt, int n)
+{
+        static elist empty;
+        if (n <= 0 || n >= EL) return &empty;
+        elist *l = &e_memo[nt][n];
+        if (e_done[nt][n]) return l;
+        e_done[nt][n] = 1;
+        switch (nt) {
+        case E_ITEM:
+                for (int k = 0; k < e_nletters; k++) {
+                        char a[2] = { (char) ('a' + k), 0 };
+                        if (n == 1) e_add(l, a, "", "");
+                        if (n == 2) { e_add(l, a, "?", ""); e_add(l, a, "*", ""); e_add(l, a, "+", ""); }
+                }
+                { const elist *g = e_gen(E_ALT2, n - 2); char b[EL + 2];
+                  for (int i = 0; i < g->n; i++) { snprintf(b, sizeof b, "(%s)", g->s[i]); e_add(l, b, "", ""); } }
+                for (int w = 0; w < 2; w++) { const elist *g = e_gen(w ? E_SEQ2 : E_ALT2, n - 3); char b[EL + 2];
+                  for (int i = 0; i < g->n; i++) { snprintf(b, sizeof b, "(%s)", g->s[i]); e_add(l, b, "?", ""); e_add(l, b, "*", ""); e_add(l, b, "+", ""); } }
+                break;
+        case E_SEQ: case E_SEQ2:
+                if (nt == E_SEQ) { const elist *g = e_gen(E_ITEM, n); for (int i = 0; i < g->n; i++) e_add(l, g->s[i], "", ""); }
+                for (int i = 1; i < n; i++) { const elist *x = e_gen(E_ITEM, i), *y = e_gen(E_SEQ, n - i);
+                        for (int a = 0; a < x->n; a++) for (int b = 0; b < y->n; b++) e_add(l, x->s[a], y->s[b], ""); }
+                break;
+        case E_ALT: case E_ALT2:
+                if (nt == E_ALT) { const elist *g = e_gen(E_SEQ, n); for (int i = 0; i < g->n; i++) e_add(l, g->s[i], "", ""); }
+                for (int i = 1; i < n - 1; i++) { const elist *x = e_gen(E_SEQ, i), *y = e_gen(E_ALT, n - 1 - i);
+                        for (int a = 0; a < x->n; a++) for (int b = 0; b < y->n; b++) e_add(l, x->s[a], "|", y->s[b]); }
+                break;
+        }
+        return l;
+}
+static void e_reset(int nletters)
+{
+        for (int i = 0; i < E_NT; i++) for (int j = 0; j < EL; j++) { free(e_memo[i][j].s); memset(&e_memo[i][j], 0, sizeof e_memo[i][j]); e_done[i][j] = 0; }
+        e_nletters = nletters;
+}
+
+/* The independent matcher of this family: the set of text positions (bit i = "i characters consumed") an expression can
+ * reach from a set of positions, computed by recursive descent over the source; '*' and '+' iterate to the fixed point.
+ * Nothing of ure.c is used, no automaton is built. */
+typedef struct { const char *p; const uint16_t *t; int tn; } gm_t;
+static uint64_t g_alt(gm_t *g, uint64_t in);
+static uint64_t g_atom(gm_t *g, uint64_t in)
+{
+        if (*g->p == '(') { g->p++; uint64_t o = g_alt(g, in); if (*g->p == ')') g->p++; return o; }
+        uint64_t o = 0; int c = (unsigned char) *g->p++;
+        for (int i = 0; i < g->tn; i++) if ((in >> i & 1) && g->t[i] == c) o |= (uint64_t) 1 << (i + 1);
+        return o;
+}
+static uint64_t g_item(gm_t *g, uint64_t in)
+{
+        const char *at = g->p;
+        uint64_t o = g_atom(g, in);
+        if (*g->p == '?') { g->p++; return o | in; }
+        if (*g->p == '*' || *g->p == '+') {
+                const char *end = g->p + 1; uint64_t all = o, fresh = o;
+                while (fresh) { g->p = at; uint64_t n = g_atom(g, fresh); fresh = n & ~all; all |= n; }
+                o = *(end - 1) == '*' ? all | in : all;
+                g->p = end;
+        }
+        return o;
+}
+static uint64_t g_alt(gm_t *g, uint64_t in)
+{
+        uint64_t o = 0;
+        for (;;) {
+                uint64_t cur = in;
+                while (*g->p && *g->p != '|' && *g->p != ')') cur = g_item(g, cur);
+                o |= cur;
+                if (*g->p != '|') return o;
+                g->p++;
+        }
+}
+static int g_match(const char *p, const uint16_t *t, int tn, int full)
+{
+        gm_t g = { p, t, tn > 60 ? 60 : tn };
+        uint64_t o = g_alt(&g, 1);
+        return full ? (tn <= 60 && (o >> tn & 1)) : o != 0;
+}
+
+static pat_t *epats; static int nepats, g_enum_quick;
+/* names a class of failure, never decides one: is every occurrence on the rows followed by text which a longer match attempt
+ * could still take (the occurrence plus the next character is the beginning of a word of the language at most 3 letters longer)? */
+static int g_shadowed(const char *p, const uint16_t *t, int tn)
+{
+        int any = 0;
+        for (int s = 0; s < tn; s++) {
+                gm_t g = { p, t + s, tn - s }; uint64_t o = g_alt(&g, 1);
+                if (!o) continue;
+                int e = 63 - __builtin_clzll(o), viable = 0;            /* longest occurrence from s */
+                any = 1;
+                if (s + e >= tn) return 0;
+                for (int x = 0; x < 40 && !viable; x++) {               /* extensions: "", then 1..3 letters */
+                        uint16_t b[64]; int n = e + 1, v = x - 1 - (x > 3 ? 3 : 0) - (x > 12 ? 9 : 0), l = x == 0 ? 0 : x <= 3 ? 1 : x <= 12 ? 2 : 3;
+                        memcpy(b, t + s, sizeof b[0] * (size_t) n);
+                        for (int i = 0; i < l; i++) { b[n++] = (uint16_t) ('a' + v % 3); v /= 3; }
+                        viable = g_match(p, b, n, 1);
+                }
+                if (!viable) return 0;
+        }
+        return any;
+}
+static struct epat_s { char src[EL]; char name[EL + 8]; } *epat_s;
+static char efam[64][64];
+static void add_enum_pats(int nletters, int len_lo, int len_hi)
+{
+        e_reset(nletters);
+        for (int n = len_lo; n <= len_hi; n++) {
+                const elist *g = e_gen(E_ALT, n);
+                epats = realloc(epats, (size_t) (nepats + g->n) * sizeof *epats); epat_s = realloc(epat_s, (size_t) (nepats + g->n) * sizeof *epat_s);
+                if (!epats || !epat_s) _exit(42);
+                for (int i = 0; i < g->n; i++) {
+                        if (g_match(g->s[i], NULL, 0, 1)) continue;             /* matches the empty string */
+                        if (nletters == 2 && n <= E_LEN3 && !g_enum_quick) continue;            /* already in the three letter set */
+                        memcpy(epat_s[nepats].src, g->s[i], EL); nepats++;
+                }
+        }
+}
+static void init_enum_pats(int thorough)
+{
+        if (!thorough) { g_enum_quick = 1; add_enum_pats(2, 1, E_LEN3); }    /* quick tier: the two letter subset up to E_LEN3 characters */
+        else { add_enum_pats(3, 1, E_LEN3); add_enum_pats(2, E_LEN2, E_LEN2 + 1); }
+        e_reset(0);
+        for (int i = 0; i < nepats; i++) {              /* the arrays no longer move */
+                static const char ops[] = "?*+|(";
+                int m = 0;
+                for (int k = 0; k < 5; k++) if (strchr(epat_s[i].src, ops[k])) m |= 1 << k;
+                if (!efam[m][0]) {
+                        int o = snprintf(efam[m], sizeof efam[m], m ? "enumerated regex with " : "enumerated regex: letters only");
+                        for (int k = 0; k < 5; k++) if (m >> k & 1) o += snprintf(efam[m] + o, sizeof efam[m] - o, k == 4 ? "()" : "%c", ops[k]);
+                }
+                snprintf(epat_s[i].name, sizeof epat_s[i].name, "regex %s", epat_s[i].src);
+                epats[i] = (pat_t){ epat_s[i].name, epat_s[i].src, 1, 0, efam[m], 1 };
+        }
+}
+static const pat_t *pat_of(int i) { return i < MAXPAT ? &pats[i] : &epats[i - MAXPAT]; }
+
+/* de Bruijn sequence B(k, n) over the letters in `sym', written out linearly (the first n-1 letters repeated at the end):
+ * every word of n letters occurs exactly once ("prefer the largest" construction; a dead end is a harness error on any tree) */
+static void debruijn(const char *sym, int k, int n, char *out)
+{
+        int len = 0;    /* greedy: start with n times the first letter, always append the last letter which gives a word not seen yet */
+        char seen[1 << 10] = { 0 }; int total = 1; for (int i = 0; i < n; i++) total *= k;
+        for (int i = 0; i < n; i++) out[len++] = sym[0];
+        seen[0] = 1;
+        for (int cnt = 1; cnt < total; cnt++) {
+                int c;
+                for (c = k - 1; c >= 0; c--) {
+                        int code = 0;
+                        for (int i = len - (n - 1); i < len; i++) code = code * k + (int) (strchr(sym, out[i]) - sym);
+                        code = code * k + c;
+                        if (!seen[code]) { seen[code] = 1; out[len++] = sym[c]; break; }
+                }
+                if (c < 0) { fprintf(stderr, "C17: de Bruijn construction failed\n"); _exit(42); }
+        }
+        out[len] = 0;
+}
+static void init_enum_texts(void)
+{
+        int n = 0;
+        for (int len = 1; len <= 4; len++) {
+                int total = 1; for (int i = 0; i < len; i++) total *= 3;
+                for (int w = 0; w < total; w++, n++) { int v = w; for (int i = len - 1; i >= 0; i--) { enum_txt[n][i] = (char) ('a' + v % 3); v /= 3; } enum_txt[n][len] = 0; }
+        }
+        if (n != 120) _exit(42);
+        debruijn("abc", 3, 3, enum_txt[n++]);           /* 29 characters */
+        debruijn("ab", 2, 5, enum_txt[n++]);            /* 36 characters */
+        debruijn("bc", 2, 5, enum_txt[n++]);
+        debruijn("ca", 2, 5, enum_txt[n++]);
+        enum_txt[n++][0] = 0;                           /* blank */
+        debruijn("cba", 3, 3, enum_txt[n++]);
+        if (n != NENT) _exit(42);
+        for (int i = 120; i < NENT; i++) if (strlen(enum_txt[i]) > 36) _exit(42);
+}
+
 static const char *pkey(const pat_t *pt) { return pt->fam ? pt->fam : pt->name; }     /* violation keys name the family, the details the pattern */
 
 static char meta_names[NMETA][24], meta_src[NMETA][4];
@@ -318,6 +535,8 @@ static void init_pats(void)
         }
         npats_zap = npats;
         init_class_pats();
+        init_enum_texts();
+        init_enum_pats(mc_tier == MC_THOROUGH);
 }
 
 /* ---- independent matcher ---------------------------------------------------- */
@@ -439,6 +658,7 @@ static int m_lit(const char *p, const uint16_t *t, int tn, int full, int fold)
 }
 static int m_at(const pat_t *pt, const uint16_t *t, int tn, int full)
 {
+        if (pt->grp) return g_match(pt->src, t, tn, full);
         return pt->regexp ? m_re(pt->src, t, tn, full, pt->casefold) : m_lit(pt->src, t, tn, full, pt->casefold);
 }
 
@@ -466,6 +686,12 @@ static int count_occ(const pat_t *pt, const struct rows *R)
         return n;
 }
 
+static int count_occ_row(const pat_t *pt, const struct rows *R, int r)
+{
+        int n = 0;
+        for (int s = 0; s < R->n[r]; s++) n += m_at(pt, R->ch[r] + s, R->n[r] - s, 0);
+        return n;
+}
 /* per process cache of the oracle's page texts, filled through a mirror decoder */
 static struct rows *text_rows[NSLOT][NTEXT];
 
@@ -516,7 +742,7 @@ static char *cfg_str(const struct cfg *c, char *b, size_t len)
         for (int i = 0, first = 1; i < NSLOT; i++) if (c->var[i] != T_ABSENT && o + 40 < len) {
                 o += snprintf(b + o, len - o, "%s%x.%x:'%s'", first ? "" : " ", slot[i].pgno, slot[i].subno, text_name(c->var[i])); first = 0;
         }
-        o += snprintf(b + o, len - o, "}%s pattern=[%s] start=%x.", c->swap12 ? " (100.2 stored before 100.1)" : "", pats[c->pat].name, c->spg);
+        o += snprintf(b + o, len - o, "}%s pattern=[%s] start=%x.", c->swap12 ? " (100.2 stored before 100.1)" : "", pat_of(c->pat)->name, c->spg);
         if (c->ssub == VBI_ANY_SUBNO) snprintf(b + o, len - o, "ANY"); else snprintf(b + o, len - o, "%x", c->ssub);
         return b;
 }
@@ -665,6 +891,10 @@ static void report_missing(struct run *r, int y, const char *got)
                 else if (r->pt->fam && pat_has_any_or_negated(r->pt->src) && rows_have_gfx(oracle_rows(r->sl[idx_of(r, y)], yt)))
                         /* names the input class of an established failure: every occurrence on this page needs '.', \P or [^ ] to take a mosaic */
                         snprintf(key, sizeof key, "regex: '.' or a negated class does not match a Teletext graphics character");
+                else if (r->pt->grp && ({ const struct rows *R = oracle_rows(r->sl[idx_of(r, y)], yt); int sh = 1, occ = 0;
+                                for (int row = 1; row <= 23; row++) if (count_occ_row(r->pt, R, row)) { occ = 1; sh &= g_shadowed(r->pt->src, R->ch[row], R->n[row]); }
+                                occ && sh; }))
+                        snprintf(key, sizeof key, "regex: occurrence followed by text a longer match attempt takes and then fails on is not reported");
                 else
                         snprintf(key, sizeof key, "%s: visited page with an occurrence is not reported [%s]", dname(r->dir), pkey(r->pt));
         } else if (page_has_hidden(r, pg))
@@ -708,18 +938,20 @@ static void check_highlight(struct run *r, const vbi_page *pg)
         mc_count("highlights_checked", 1);
 }
 
+/* phase "enumerated regular expressions": the cache of a population is built once and searched with many patterns */
+static vbi_decoder *g_shared_v;
 static void run_begin(struct run *r, const struct cfg *c)
 {
         uint16_t pat[64]; int i;
         static const int ord[2][NSLOT] = { { 0, 1, 2, 3, 4, 5, 6 }, { 0, 2, 1, 3, 4, 5, 6 } };
         memset(r, 0, sizeof *r);
-        r->c = c; r->pt = &pats[c->pat];
+        r->c = c; r->pt = pat_of(c->pat);
         memcpy(r->var, c->var, NSLOT);
         mc_case("building the cache crashes", "%s", run_desc(r));
-        r->v = vbi_decoder_new();
+        r->v = g_shared_v ? g_shared_v : vbi_decoder_new();
         if (!r->v) _exit(42);
         /* store order: 100.0 first (see header), then 100.1/100.2 in the chosen order, then the rest */
-        for (i = 0; i < NSLOT; i++) { int s = ord[c->swap12][i]; if (c->var[s] != T_ABSENT) put_page(r->v, s, c->var[s]); }
+        if (!g_shared_v) for (i = 0; i < NSLOT; i++) { int s = ord[c->swap12][i]; if (c->var[s] != T_ABSENT) put_page(r->v, s, c->var[s]); }
         model_rebuild(r);
         if ((int) r->v->cn->n_cached_pages != r->np) {
                 fprintf(stderr, "C17: cache holds %u pages, model %d\n", r->v->cn->n_cached_pages, r->np); _exit(42);
@@ -740,7 +972,7 @@ static void run_begin(struct run *r, const struct cfg *c)
 static void run_end(struct run *r)
 {
         if (r->s) vbi_search_delete(r->s);
-        vbi_decoder_delete(r->v);
+        if (r->v != g_shared_v) vbi_decoder_delete(r->v);
         r->s = NULL; r->v = NULL;
 }
 
@@ -1034,6 +1266,28 @@ static void class_case(uint64_t idx, void *arg)
         all_starts(&c, a);
 }
 
+/* seed C17 round 6: every enumerated regular expression against every population of the enumerated texts.  Population q holds
+ * the texts q, q + NENPOP, ... in the slots 100.1 .. 8FE.0 (words of all lengths side by side).  One case = one population x
+ * ENUM_CHUNK expressions: the decoder and its cache are built once, every expression gets a search context of its own and is
+ * driven through straight passes (+ restart) like the phase "patterns". */
+#define ENUM_CHUNK 48
+static uint64_t enum_ncases(void) { return (uint64_t) NENPOP * ((nepats + ENUM_CHUNK - 1) / ENUM_CHUNK); }
+static void enum_case(uint64_t idx, void *arg)
+{
+        const struct phase_arg *a = arg; struct cfg c; memset(&c, 0, sizeof c);
+        int q = idx % NENPOP, k0 = (int) (idx / NENPOP) * ENUM_CHUNK;
+        c.var[0] = T_ABSENT;
+        for (int i = 1; i < NSLOT; i++) c.var[i] = T_ENUM0 + q + NENPOP * (i - 1);
+        c.pat = MAXPAT + k0;
+        mc_case("building the cache crashes", "population %d of the enumerated texts", q);
+        g_shared_v = vbi_decoder_new();
+        if (!g_shared_v) _exit(42);
+        for (int i = 1; i < NSLOT; i++) put_page(g_shared_v, i, c.var[i]);
+        for (int k = k0; k < k0 + ENUM_CHUNK && k < nepats; k++) { c.pat = MAXPAT + k; all_starts(&c, a); }
+        vbi_decoder_delete(g_shared_v); g_shared_v = NULL;
+        mc_leak_check("search or cache leaks memory");
+}
+
 /* one cache update between two calls */
 /* update from inside the progress callback, then the pass to its end, then one complete pass judged exactly */
 static void drive_cb_update(const struct cfg *c, int d, int u)
@@ -1152,11 +1406,12 @@ int main(int argc, char **argv)
 
         mc_meta("level", "model_checking");
         mc_meta("technique", "bounded-exhaustive product of cache populations x start positions x call histories on the real search/cache/regex code, "
-                "every answer predicted by a reference pass model with an independent matcher (literals, . * + ? | sets, ranges, character property classes \\pN \\PN [:name:] [^:name:]); "
+                "every answer predicted by a reference pass model with an independent matcher (literals, . * + ? | sets, ranges, character property classes \\pN \\PN [:name:] [^:name:]; a position set matcher for grouping and nested alternation); "
                 "E2 explicit-state search over all next(+1)/next(-1)/update sequences");
         mc_meta("rule", "a scenario = (text of each of 7 page slots, store order, pattern, start page/subpage, history of calls); it is run on a fresh decoder "
                 "and is non-trivial when vbi_search_next was reached; flat phases enumerate straight passes (+ restart), every single direction switch point and one cache update, "
                 "every pattern of an enumerated family of property class expressions against every class text in every slot, "
+                "every regular expression up to a source length (all strings of a small grammar, not a sample) against every population of texts which hold each short word alone on a page, "
                 "the BFS phase all letter sequences with de-duplication on (search context, model state, cache content)");
         mc_meta("assume", "enlarged characters count once (upper left cell); lower halves are not text");
         mc_meta("assume", "backward pass: the start page may be returned first or last (property text vs. API documentation), all other positions are fixed");
@@ -1164,6 +1419,7 @@ int main(int argc, char **argv)
         mc_meta("assume", "start pages within 0x100..0x8FF; caches holding only undisplayable pages are not explored");
         mc_meta("assume", "character properties are those of the C locale on ASCII plus the Teletext graphics ranges; class texts never touch a row boundary (whether the row "
                 "separator belongs to a negated class is not judged); properties 12-15, upper/lower under case folding and overlapping classes under * + ? | are not explored");
+        mc_meta("assume", "enumerated regular expressions which match the empty string are left out (where an empty occurrence lies is not stated)");
         mc_meta("assume", "100.0 is stored before 100.1/100.2 (storing P.0 replaces another cached subpage of P); 100.1/100.2 in both orders");
         mc_meta("bound", "slots {100.0,100.1,100.2,150.0,1AB.0,899.0,8FE.0} x {absent,'ZIP','ZAP'}: all populations of <= 2 pages and all of %s, x 8 start pages x {0,ANY,2} x 2 directions, "
                 "straight pass + restart; the same on slots {150.0,1AB.1,1AB.A,1AB.C,2BD.F,899.0,8FE.B} (hexadecimal subpage numbers); a direction switch after every call on populations of <= 2 pages and on %s; %d text variants one at a time x 7 slots x 3 backgrounds; "
@@ -1171,10 +1427,14 @@ int main(int argc, char **argv)
                 "%d regular expressions of character property classes (ordered pairs over {alpha,digit,punct,upper,lower} as \\pN and as [:name:] incl. one class twice, mixed notations, triples, "
                 "negated classes \\PN / [^:name:] before, after, between positive ones and two in a row, union lists, alnum/xdigit/graph/print/space, * + ? | over disjoint classes, casefold, "
                 "Teletext graphics, the documented names :gfx: :drcs:, a class next to a literal or a range) x %d rotations of %d class texts (12 permutations of 'Bk7-', '7B', '42', 'AB', ... , mosaics) "
-                "over 6 slots x %s; one cache update after 0..2 calls on %s, and one from inside the progress callback while the page is being visited, each followed by complete passes; "
+                "over 6 slots x %s; "
+                "%d enumerated regular expressions (all non-nullable source strings of <= %d characters over a b c ? * + | ( ) and of %d..%d characters over a b ? * + | ( ), no doubled operator, no idle parentheses) "
+                "x %d populations of 6 pages holding %d texts (each word of 1..4 letters over {a,b,c} alone on a page, de Bruijn sequences B(3,3) and B(2,5), blank) x start %s x 2 directions, straight pass + restart; "
+                "one cache update after 0..2 calls on %s, and one from inside the progress callback while the page is being visited, each followed by complete passes; "
                 "BFS: %d slots x 4 texts x %d starts, all sequences of %d operations {next(+1), next(-1), %d updates (at most one)}",
                 T ? "the 7 slots" : "the 6 slots without 1AB.0", T ? "all populations" : "{100.0,100.1,150.0,8FE.0}", NTEXT_ZAP - 1, npats_zap, NPT,
                 npats - npats_zap, NROT(T), NCT, T ? "4 start pages x {0,ANY,2} x 2 directions" : "start 100.0 / 300.0 x 2 directions",
+                nepats, T ? E_LEN3 : 0, T ? E_LEN2 : 1, T ? E_LEN2 + 1 : E_LEN3, NENPOP, NENT, T ? "100.0 / 300.0" : "300.0",
                 T ? "{100.1,100.2,150.0,899.0,8FE.0}" : "{100.1,150.0,899.0,8FE.0}", B.nslot, B.npg * B.nsub, bfs_ops, B.nupd);
 
         /* small populations first: the recorded witness of each violation key is then a small one */
@@ -1209,6 +1469,9 @@ int main(int argc, char **argv)
         mc_pool("patterns", (uint64_t) npats_zap * NPT, pattern_case, &pt, 120);
         struct phase_arg pc = { 0x7F, 0, 7, 1, 0, T ? S(0) | S(2) | S(4) | S(7) : S(0) | S(4), T ? 3 : 1 };
         mc_pool("property classes", (uint64_t) (npats - npats_zap) * NROT(T), class_case, &pc, 120);
+        /* seed C17 round 6 */
+        struct phase_arg pe = { 0x7F, 0, 7, 1, 0, T ? S(0) | S(4) : S(4), 1 };
+        mc_pool("enumerated regular expressions", enum_ncases(), enum_case, &pe, 120);
         struct phase_arg up = { T ? (m6 & ~S(0)) : (S(1) | S(3) | S(5) | S(6)), 0, 7, 0, 0, T ? ALL_PG : S(0) | S(2) | S(4) | S(7), T ? 3 : 1 };
         mc_pool("one cache update", npop(up.mask), update_case, &up, 120);
         /* two subpages of one page among the slots: the page statistics (subpage range) are at stake when one of them is replaced while referenced */
